@@ -116,3 +116,12 @@ if __name__ == "__main__":
 
 def timemap_replay():
     return build("timemap_replay", [], os.path.join(HARNESS, "timemap_main.cpp"))
+
+
+def opt_replay(extra_flags=(), link_flags=(), name="opt_replay"):
+    units = []
+    for o in (3, 5, 7):
+        for d in (1, 2, 3, 4):
+            for v in (0, 1, 2, 3):
+                units.append((os.path.join(HARNESS, "opt_box.cpp"), "obox_%d_%d_%d" % (o, d, v), ["-DOP_ORDER=%d" % o, "-DOP_DIM=%d" % d, "-DOP_VARIANT=%d" % v]))
+    return build(name, units, os.path.join(HARNESS, "opt_main.cpp"), extra_flags=extra_flags, link_flags=link_flags)
